@@ -72,7 +72,14 @@ pub unsafe extern "C" fn buffer_free(buf: *mut Buffer) {
     if buf.is_null() {
         return;
     }
-    drop(Box::from_raw(buf));
+    let buf = Box::from_raw(buf);
+    if !buf.data.is_null() {
+        // the data was handed out as a leaked boxed slice of exactly `len` bytes
+        drop(Box::from_raw(core::ptr::slice_from_raw_parts_mut(
+            buf.data,
+            buf.len as usize,
+        )));
+    }
 }
 
 /// Try to decode a bundle from a given buffer.
@@ -88,13 +95,16 @@ pub unsafe extern "C" fn bundle_from_cbor(ptr: *mut Buffer) -> *mut Bundle {
     assert!(!ptr.is_null());
     let buf = &mut *ptr;
     //println!("buf len {}", buf.len);
-    assert!(!buf.data.is_null());
+    if buf.data.is_null() {
+        // an empty buffer without data cannot hold a bundle
+        return std::ptr::null_mut::<Bundle>();
+    }
     let buffer = core::slice::from_raw_parts(buf.data, buf.len as usize);
     //println!("buffer {}", helpers::hexify(buffer));
-    let bndl: Bundle = buffer
-        .to_owned()
-        .try_into()
-        .expect("failed to load bundle from buffer");
+    let bndl: Bundle = match buffer.to_owned().try_into() {
+        Ok(bndl) => bndl,
+        Err(_) => return std::ptr::null_mut::<Bundle>(),
+    };
     if bndl.validate().is_ok() {
         Box::into_raw(Box::new(bndl))
     } else {
@@ -225,6 +235,7 @@ pub unsafe extern "C" fn bundle_metadata_free(ptr: *mut BundleMetaData) {
     if !meta.dst.is_null() {
         drop(CString::from_raw(meta.dst));
     }
+    drop(Box::from_raw(ptr));
 }
 
 /// Check if a given bundle is valid.
